@@ -1,6 +1,6 @@
 CONSTANTS MaxLen = 5
   Side = "client"
-  Cfgs = {"all", "noall", "onlyall"}
+  Cfgs = {"all", "noall", "onlyall", "idx"}
 INIT Init
 NEXT Next
 INVARIANTS FiredOnlyAfterHandshake NoOverride ExactlyItsHandler Emit
